@@ -214,7 +214,7 @@ func runC05(c *Ctx) {
 	for _, p := range c04Shapes() {
 		sweep("shape", p.Copy(), true, c.Budget(10, 200))
 	}
-	nprof := c.Budget(90, 3000)
+	nprof := c.Budget(90, 1500)
 	for k := 0; k < nprof; k++ {
 		kn := c04Knobs(r)
 		kn.MaxSamples = 6
